@@ -53,8 +53,10 @@ struct CountDW : DirectedWeightedGraph {
     explicit CountDW(size_t n = 0) : Base(n) {}
     mutable uint64_t scans = 0;
     mutable uint64_t budget = ~0ULL;
+    mutable std::vector<VertexIndex> *trace = nullptr; // order in which neighbourhoods are scanned
     const Successors &getOutNeighbours(VertexIndex v) const {
         if (++scans > budget) throw BudgetExceeded{budget};
+        if (trace) trace->push_back(v);
         return Base::getOutNeighbours(v);
     }
     const Successors &rawNeighbours(VertexIndex v) const { return Base::getOutNeighbours(v); }
@@ -83,6 +85,7 @@ struct Counters {
 struct Family {
     GraphSpec s;
     std::string name;
+    unsigned ampBase = 0; // "amplified" family: vertices 0..ampBase-1 form the base graph, the rest are shared sinks
 };
 GraphSpec layered(bool directed, unsigned w, unsigned depth) {
     GraphSpec g;
@@ -154,8 +157,8 @@ Family familyAt(uint64_t i, bool small, uint64_t seed) {
     Rng r = caseRng(seed, 0xfa, i);
     Family f;
     bool directed = i % 2 == 0;
-    unsigned kind = (unsigned)((i / 2) % 9);
-    unsigned step = (unsigned)(i / 18);
+    unsigned kind = (unsigned)((i / 2) % 10);
+    unsigned step = (unsigned)(i / 20);
     switch (kind) {
     case 0: {
         unsigned w = small ? 2 + step % 2 : 2 + step % 3;
@@ -217,6 +220,27 @@ Family familyAt(uint64_t i, bool small, uint64_t seed) {
         for (unsigned t = 0; t + 1 < tail; ++t) f.s.edges.push_back({1 + w + t, 1 + w + t + 1});
         if (directed) f.s.edges.push_back({1 + w + tail - 1, 1 + (step % w)}); // an edge pointing back into the wide level
         f.name = "fan(level=" + std::to_string(w) + ",tail=" + std::to_string(tail) + ")";
+        break;
+    }
+    case 8: {
+        // amplifier: a small dense base graph (many decrease-key events) whose every vertex also points to d shared sinks.
+        // With the weights of weighAmplified() each base vertex, expanded in the right order, improves every sink once; a
+        // vertex expanded before its distance is final improves them twice, so every mis-ordered pop costs d extra scans.
+        unsigned m = small ? 4 + step % 4 : 5 + (step * 3) % 10;
+        f.s.directed = directed;
+        for (unsigned a = 0; a < m; ++a)
+            for (unsigned b = directed ? 0 : a + 1; b < m; ++b)
+                if (a != b && r.chance(1, 2)) f.s.edges.push_back({a, b});
+        for (unsigned a = 0; a + 1 < m; ++a) {
+            Edge e{a, a + 1};
+            if (std::find(f.s.edges.begin(), f.s.edges.end(), e) == f.s.edges.end()) f.s.edges.push_back(e);
+        }
+        unsigned d = (unsigned)f.s.edges.size() + 2 + step % 7;
+        for (unsigned a = 0; a < m; ++a)
+            for (unsigned t = 0; t < d; ++t) f.s.edges.push_back({a, m + t});
+        f.s.n = m + d;
+        f.ampBase = m;
+        f.name = "amplifier(base=" + std::to_string(m) + ",sinks=" + std::to_string(d) + ")";
         break;
     }
     default: { // dense random graph: many decrease-key events
@@ -510,6 +534,29 @@ WSpec weigh(const GraphSpec &s, int alphabet, Rng &r) {
     }
     return ws;
 }
+// weights for the amplifier family: base edges 1..9, edge (v, sink) = BIG - 3 * (true distance of v from vertex 0)
+WSpec weighAmplified(const GraphSpec &s, unsigned base, Rng &r) {
+    WSpec ws;
+    ws.s = s;
+    ws.alphabet = 5;
+    for (auto &e : s.edges)
+        if (e.first < base && e.second < base) ws.w[e] = (double)(1 + r.u(9));
+    std::vector<double> d(base, 1e18);
+    d[0] = 0;
+    for (unsigned round = 0; round < base; ++round)
+        for (auto &kv : ws.w) {
+            VertexIndex a = kv.first.first, b = kv.first.second;
+            if (d[a] + kv.second < d[b]) d[b] = d[a] + kv.second;
+            if (!s.directed && d[b] + kv.second < d[a]) d[a] = d[b] + kv.second;
+        }
+    const double BIG = 4096;
+    for (auto &e : s.edges)
+        if (!(e.first < base && e.second < base)) {
+            VertexIndex v = std::min(e.first, e.second);
+            ws.w[e] = d[v] > 1e17 ? BIG : BIG - 3 * d[v];
+        }
+    return ws;
+}
 template <class G> G buildWeighted(const WSpec &ws, unsigned variant, Rng &r) {
     G g(ws.s.n);
     for (auto &e : insertionOrder(ws.s, variant, r)) g.addEdge(e.first, e.second, ws.w.at(canon(ws.s.directed, e.first, e.second)));
@@ -663,6 +710,90 @@ template <class G> std::string c19bfs(const G &g, const std::vector<VertexIndex>
     return "";
 }
 
+// ------------------------------------------------------------------ C19: search for wasted work, then amplify it
+// The bound V+E+1 leaves a slack of about V plus the edges that never relax, so an implementation that now and then expands
+// a vertex BEFORE its distance is final stays inside it on ordinary graphs. This monitor looks for that symptom on small
+// dense graphs: the order of neighbourhood scans is recorded, the search's tentative distances are replayed along it, and a
+// scan of v at a tentative distance above v's true distance is a premature expansion (it cannot happen when vertices are
+// taken in order of tentative distance). When one is seen, the base graph is copied six times in a chain and the
+// prematurely expanded vertex of every copy points to a set of shared sinks, with weights chosen so that each copy improves
+// every sink: once per copy when expansions are in order, twice when the premature one happens again. The stated bound is
+// then enforced on the amplified graph. On an implementation that expands in distance order nothing is ever amplified.
+struct SearchStats {
+    uint64_t bases = 0, premature = 0, amplified = 0;
+} SS;
+std::string searchAndAmplify(Rng &r, std::string &desc) {
+    for (int attempt = 0; attempt < 150; ++attempt) {
+        unsigned nb = 5 + r.u(7);
+        std::vector<std::pair<Edge, double>> edges;
+        for (unsigned a = 0; a < nb; ++a)
+            for (unsigned b = 0; b < nb; ++b)
+                if (a != b && r.chance(1, 2)) edges.push_back({{a, b}, (double)(1 + r.u(r.chance(1, 2) ? 9 : 20))});
+        for (size_t i = edges.size(); i > 1; --i) std::swap(edges[i - 1], edges[r.u((unsigned)i)]);
+        ++SS.bases;
+        CountDW g(nb);
+        for (auto &e : edges) g.addEdge(e.first.first, e.first.second, e.second);
+        std::vector<VertexIndex> trace;
+        g.trace = &trace;
+        g.budget = 100000;
+        try {
+            (void)alg::findGeodesicsDijkstra(g, 0);
+        } catch (BudgetExceeded &) {
+            return "work-bound: findGeodesicsDijkstra scanned more than 100000 neighbourhoods on a graph of " + std::to_string(nb) + " vertices";
+        }
+        g.trace = nullptr;
+        std::vector<double> d(nb, 1e18); // true distances
+        d[0] = 0;
+        for (unsigned round = 0; round < nb; ++round)
+            for (auto &e : edges)
+                if (d[e.first.first] + e.second < d[e.first.second]) d[e.first.second] = d[e.first.first] + e.second;
+        // replay the tentative distances along the recorded scan order
+        std::vector<double> td(nb, 1e18);
+        td[0] = 0;
+        int prem = -1;
+        for (auto v : trace) {
+            if (v >= nb) break;
+            if (td[v] > d[v] && prem < 0) prem = (int)v;
+            for (auto x : g.rawNeighbours(v)) {
+                double w = g.getEdgeWeight(v, x);
+                if (td[v] + w < td[x]) td[x] = td[v] + w;
+            }
+        }
+        if (prem < 0) continue;
+        ++SS.premature;
+        unsigned k = 6, sinks = 2 * ((unsigned)edges.size() + nb);
+        double span = 0;
+        VertexIndex far = 0;
+        for (unsigned v = 0; v < nb; ++v)
+            if (d[v] < 1e17 && d[v] >= span) { span = d[v]; far = v; }
+        double STEP = 2 * span + 3, BIG = STEP * (k + 1) + 10;
+        CountDW a(k * nb + sinks);
+        uint64_t listLen = 0;
+        for (unsigned c = 0; c < k; ++c) {
+            for (auto &e : edges) { a.addEdge(c * nb + e.first.first, c * nb + e.first.second, e.second); ++listLen; }
+            for (unsigned t = 0; t < sinks; ++t) { a.addEdge(c * nb + (unsigned)prem, k * nb + t, BIG - c * STEP); ++listLen; }
+            if (c + 1 < k) { a.addEdge(c * nb + far, (c + 1) * nb, 1.0); ++listLen; }
+        }
+        ++SS.amplified;
+        a.budget = (uint64_t)a.getSize() + listLen + 1;
+        std::ostringstream o;
+        o << "amplified(" << k << " chained copies of a " << nb << "-vertex base with edges [";
+        for (auto &e : edges) o << "(" << e.first.first << "," << e.first.second << ")=" << e.second << " ";
+        o << "], vertex " << prem << " of every copy joined to " << sinks << " shared sinks)";
+        desc = o.str();
+        try {
+            (void)alg::findGeodesicsDijkstra(a, 0);
+        } catch (BudgetExceeded &b) {
+            ++C.budgetsHit;
+            return "work-bound: findGeodesicsDijkstra(source 0) scanned more than " + std::to_string(b.budget) + " neighbourhoods (V=" + std::to_string(a.getSize()) + ", E=" + std::to_string(listLen) +
+                   ") on a graph amplified from a base in which vertex " + std::to_string(prem) + " was expanded before its distance was final";
+        }
+        ++C.scanBoundChecks;
+        return "";
+    }
+    return "";
+}
+
 std::string obs(const std::string &m) {
     size_t p = m.find_first_of(":(");
     return p == std::string::npos ? m : m.substr(0, p);
@@ -769,10 +900,12 @@ int main(int argc, char **argv) {
         forCases(R, total, "paths", [&](uint64_t idx) {
             GraphSpec s;
             std::string name;
+            unsigned ampBase = 0;
             if (idx < nfam) {
                 Family f = familyAt(idx, false, seed);
                 s = f.s;
                 name = f.name + " ";
+                ampBase = f.ampBase;
                 R.count("graphs_from_families");
             } else {
                 uint64_t k = idx - nfam;
@@ -796,7 +929,8 @@ int main(int argc, char **argv) {
             if (s.n <= 60) {
                 static const int c19alpha[] = {0, 1, 4, 3, 5, 4};
                 int alphabet = c19alpha[idx % 6];
-                WSpec ws = weigh(s, alphabet, r);
+                WSpec ws = ampBase ? weighAmplified(s, ampBase, r) : weigh(s, alphabet, r);
+                if (ampBase) R.count("dijkstra_amplifier_graphs");
                 uint64_t listLen = 0;
                 if (s.directed) {
                     auto g = buildWeighted<CountDW>(ws, variant, r);
@@ -810,6 +944,11 @@ int main(int argc, char **argv) {
                     cls = "UndirectedWeightedGraph";
                 }
                 if (!e.empty()) { R.violation(cls + "/" + obs(e) + "/findGeodesicsDijkstra", e + " on " + curDesc); return; }
+            }
+            if (idx % 4 == 1) {
+                std::string desc;
+                e = searchAndAmplify(r, desc);
+                if (!e.empty()) { R.violation("DirectedWeightedGraph/work-bound/findGeodesicsDijkstra", e + " on " + desc); return; }
             }
             if (idx % 97 == 5 && R.samples.size() < 5) R.sample("{\"graph\": " + q(curDesc) + "}");
         });
@@ -837,6 +976,9 @@ int main(int argc, char **argv) {
     R.counter("log2_of_most_shortest_paths_to_one_vertex_max") = C.maxShortestPathsSeenLog2;
     R.counter("scans_per_mille_of_V_plus_E_plus_1_max") = C.maxScanRatioPermille;
     R.count("budgets_hit", C.budgetsHit);
+    R.count("small_dense_bases_searched_for_premature_expansion", SS.bases);
+    R.count("bases_with_a_premature_expansion", SS.premature);
+    R.count("amplified_graphs_checked_against_the_bound", SS.amplified);
     R.count("wrong_results_seen_but_left_to_C11", C.wrongResultsSeenInWorkCheck);
     R.write();
     return R.viols.empty() ? 0 : 1;
